@@ -254,9 +254,41 @@ def _logical(fails):
   return cases
 
 
+def _leaf_kinds(fails):
+  """linen get_partition_spec / get_sharding per leaf kind: boxed -> its names, any unboxed array-like -> replicated, other -> None"""
+  import jax
+  import jax.numpy as jnp
+  import flax.linen as nn
+  from jax.sharding import PartitionSpec as P
+  cases = 0
+  mesh = jax.sharding.Mesh(np.array(jax.devices()[:1]).reshape(1, 1), ('x', 'y'))
+  for rank in (0, 1, 2, 3):
+    shape = (2, 3, 4)[:rank]
+    kinds = {
+        'jax array': jnp.zeros(shape), 'numpy array (device_get / restored checkpoint)': np.zeros(shape, np.float32),
+        'ShapeDtypeStruct (eval_shape)': jax.ShapeDtypeStruct(shape, jnp.float32), 'numpy scalar type': np.float32(1.0) if rank == 0 else np.ones(shape, np.int32),
+    }
+    for tag, leaf in kinds.items():
+      cases += 1
+      names = ('x', None, 'y')[:rank]
+      tree = {'params': {'kernel': nn.Partitioned(leaf, names=names), 'bias': leaf, 'meta': {'count': leaf}}, 'other': 1.5}
+      spec = nn.get_partition_spec(tree)
+      want = {'params': {'kernel': P(*names), 'bias': P(), 'meta': {'count': P()}}, 'other': None}
+      if spec != want:
+        fails.append(dict(inputs=dict(api='linen', fn='get_partition_spec', leaf=tag, rank=rank), observed=f'{spec} instead of {want}'[:300], violated='partition-spec-per-leaf'))
+        return cases
+      sh = nn.get_sharding(tree, mesh)
+      ok = sh['other'] is None and all(isinstance(v, jax.sharding.NamedSharding) for v in (sh['params']['kernel'], sh['params']['bias'], sh['params']['meta']['count'])) \
+          and sh['params']['bias'].spec == P() and sh['params']['kernel'].spec == P(*names)
+      if not ok:
+        fails.append(dict(inputs=dict(api='linen', fn='get_sharding', leaf=tag, rank=rank), observed=f'{sh}'[:300], violated='partition-spec-per-leaf'))
+        return cases
+  return cases
+
+
 def run(tier, seed):
   cases, fails = 0, []
-  for part in (_linen, _nnx, _nnx_rules, _logical):
+  for part in (_linen, _nnx, _nnx_rules, _logical, _leaf_kinds):
     try:
       cases += part(fails)
     except Exception:
@@ -266,7 +298,7 @@ def run(tier, seed):
       break
   return dict(name=NAME, cases=cases, distinct=cases,
               bound='linen.scan stacking axis {0,1,2} x 5 variable_axes layouts (plain / In / Out, both orders) + 8 nested scan/vmap cases; nnx vmap/scan: ranks 1-3 x every sharding prefix x every stacking axis; '
-                    'nnx.get_partition_spec under 5 sharding-rule sets; a linen variable holding a dict of boxes; _logical_to_mesh_axes: 4 name tuples x all ordered triples of 12 rules',
+                    'nnx.get_partition_spec under 5 sharding-rule sets; a linen variable holding a dict of boxes; _logical_to_mesh_axes: 4 name tuples x all ordered triples of 12 rules; linen get_partition_spec / get_sharding x 4 leaf kinds x ranks 0-3',
               failures=fails[:2], error=None)
 
 
